@@ -563,6 +563,178 @@ ENGINES = [
     {"name": "ribquery", "gen": gen, "corpus": corpus, "nontrivial": nontrivial, "classify": classify, "shards": 8},
 ]
 
+
+# ======================================================================================================================
+# engine ribconf: the rib unit's CONFIGURATION SURFACE - what the TOML file says is what the unit enforces
+# (seeded/C11-c2: field-level `#[serde(default)]` gave /0 to the family whose key a partial table leaves out).
+# Real TOML text -> real loader -> real Manager / rib unit / HTTP server; start-up and reloads.
+# ======================================================================================================================
+CONF_V4 = [0, 1, 4, 7, 8, 9, 12, 16, 19, 24, 31, 32]
+CONF_V6 = [0, 1, 8, 16, 18, 19, 20, 32, 48, 64, 127, 128]
+CONF_BAD = ["256", "-1", "300", "s9", "s19", "b", "f", "70000"]
+CONF_PATHS = ["/prefixes/", "/rib1/", "/rib1", "/rib2//", "/prefixes", "/p/q/"]
+CONF_BASES = ["/prefixes/", "/rib1/", "/rib2/", "/p/q/"]
+CONF_DEFAULT = {4: 8, 6: 19}
+
+
+def conf_norm(path):
+    return (path if path != "-" else "/prefixes/").rstrip("/") + "/"
+
+
+def conf_effective(ql):
+    """where the generator AIMS its probes (the verdicts are the oracle's): the limits a table means, None = refused"""
+    if ql == "-":
+        return dict(CONF_DEFAULT)
+    if ql == "e":
+        return None
+    f = ql.split("/")
+    lim = {}
+    for af, tok in ((4, f[1]), (6, f[2])):
+        if tok == "-":
+            lim[af] = CONF_DEFAULT[af]
+        elif tok.lstrip("-").isdigit() and 0 <= int(tok) <= 255:
+            lim[af] = int(tok)
+        else:
+            return None
+    return lim
+
+
+def conf_probes(rng, lim, base, all_of_them=False):
+    """moreSpecifics requests at, above and below the limit in force and around the documented default, both families"""
+    out = []
+    for af in (4, 6):
+        width = 32 if af == 4 else 128
+        lens = {lim[af] - 1, lim[af], lim[af] + 1, 0, CONF_DEFAULT[af] - 1, CONF_DEFAULT[af]}
+        lens = sorted(l for l in lens if 0 <= l <= width)
+        if not all_of_them:
+            keep = [l for l in lens if l in (lim[af] - 1, lim[af])]
+            lens = sorted(set(keep + [rng.choice(lens)] + ([rng.choice(lens)] if rng.chance(50) else [])))
+        for l in lens:
+            inc = "m" if all_of_them or rng.chance(75) else rng.choice(["lm", "lm", "l", "-"])
+            out.append("Q %d %d %s %s" % (af, l, inc, base))
+    return out
+
+
+def conf_gen_ql(rng):
+    k = rng.below(100)
+    if k < 10:
+        return "-"
+    if k < 17:
+        return "e"
+    vals = []
+    for pool in (CONF_V4, CONF_V6):
+        j = rng.below(100)
+        if j < 40:
+            vals.append("-")
+        elif j < 88:
+            vals.append(str(rng.choice(pool)))
+        elif j < 92:
+            vals.append(str(rng.choice([33, 129, 200, 255])))
+        else:
+            vals.append(rng.choice(CONF_BAD))
+    return "m/%s/%s%s" % (vals[0], vals[1], "/x" if rng.chance(10) else "")
+
+
+def conf_gen_case(rng, i):
+    ops = []
+    lim, base = None, None
+    if rng.chance(8):
+        ops.append("Q 4 0 m /prefixes/")      # nothing runs yet
+    nloads = rng.weighted([(1, 25), (2, 40), (3, 25), (4, 10)])
+    first_path = "-" if rng.chance(50) else rng.choice(CONF_PATHS)
+    for _ in range(nloads):
+        ql = conf_gen_ql(rng)
+        if lim is not None and rng.chance(12):
+            ql = rng.choice(["e", "m/%s/-" % rng.choice(CONF_BAD), "m/-/%s" % rng.choice(CONF_BAD)])   # a reload that must change nothing
+        path = first_path if rng.chance(80) else rng.choice(["-"] + CONF_PATHS)   # a changed path is ignored by a running unit
+        ops.append("C %d %s %s" % (rng.below(8), ql, path))
+        eff = conf_effective(ql)
+        if eff is not None:
+            if lim is None:
+                base = conf_norm(path)
+            lim = eff
+        if lim is None:
+            if rng.chance(40):
+                ops.append("Q %d 0 m %s" % (rng.choice([4, 6]), conf_norm(path)))
+            continue
+        ops += conf_probes(rng, lim, base)
+        if rng.chance(25):
+            other = rng.choice([b for b in CONF_BASES if b != base] + ([conf_norm(path)] if conf_norm(path) != base else []))
+            ops.append("Q 4 %d m %s" % (lim[4], other))
+    return ";".join(ops)
+
+
+def conf_gen(rng, tier):
+    n = 160 if tier == "quick" else 3000
+    for i in range(n):
+        yield conf_gen_case(rng, i)
+
+
+def conf_corpus():
+    """every presence pattern of the two keys x every way of writing the table down, at start-up and as a reload
+    (after a start with other limits), probed around the limit in force and around the documented default"""
+    cases = []
+    class _R:     # the probes of the corpus are all of them: no randomness
+        def choice(self, l): return l[0]
+        def chance(self, p): return False
+    r = _R()
+    patterns = ["-", "m/-/-", "m/12/-", "m/-/32", "m/12/32", "m/0/-", "m/-/0", "m/12/-/x", "m/-/32/x"]
+    for pat in patterns:
+        for style in range(8):
+            if pat == "-" and style > 0:
+                continue
+            lim = conf_effective(pat)
+            cases.append(";".join(["C %d %s -" % (style, pat)] + conf_probes(r, lim, "/prefixes/", True)))
+            cases.append(";".join(["C 0 m/20/40 /rib1", "Q 4 19 m /rib1/", "Q 6 39 m /rib1/", "C %d %s -" % (style, pat)] + conf_probes(r, lim, "/rib1/", True)
+                                  + ["Q 4 8 m /prefixes/"]))
+    # refused files: at start-up nothing runs; as a reload nothing changes
+    for bad in ["e", "m/256/-", "m/-/-1", "m/s8/-", "m/-/b", "m/f/19", "m/8/300"]:
+        for style in (0, 1, 2, 3):
+            cases.append("C %d %s -;Q 4 0 m /prefixes/;C 0 m/-/32 -;Q 4 7 m /prefixes/;Q 4 8 m /prefixes/;Q 6 31 m /prefixes/;Q 6 32 m /prefixes/;"
+                         "C %d %s /rib2/;Q 4 7 m /prefixes/;Q 4 8 m /prefixes/;Q 6 31 m /prefixes/;Q 6 32 m /prefixes/;Q 6 19 lm /prefixes/;Q 4 8 m /rib2/" % (style, bad, style, bad))
+    # the demonstration of seeded/C11-c2
+    cases.append("C 0 m/-/32 -;Q 4 0 m /prefixes/;Q 4 7 m /prefixes/;Q 4 8 m /prefixes/;Q 6 31 m /prefixes/")
+    cases.append("C 0 m/16/- -;Q 6 16 m /prefixes/;Q 4 8 m /prefixes/;Q 4 16 m /prefixes/")
+    return cases
+
+
+def conf_nontrivial(case, out):
+    t = out.split()
+    return "ok" in t and any(x.startswith("200") and x.endswith("m") for x in t) and "400" in t
+
+
+def conf_classify(case, out):
+    ks = []
+    loads = [o.split() for o in case.split(";") if o.startswith("C ")]
+    toks = out.split()
+    verdicts = [t for t in toks if t in ("ok", "E")]
+    started = False
+    for f, v in zip(loads, verdicts):
+        ql = f[2]
+        when = "reload" if started else "start"
+        if ql in ("-", "e"):
+            pat = {"-": "absent", "e": "table-without-more-specifics"}[ql]
+        else:
+            g = ql.split("/")
+            kind = lambda x: "unset" if x == "-" else ("int" if x.lstrip("-").isdigit() and 0 <= int(x) <= 255 else "bad")
+            pat = "v4-%s,v6-%s" % (kind(g[1]), kind(g[2]))
+            if len(g) > 3:
+                ks.append("conf:unknown-key")
+        ks.append("conf:%s:%s:%s" % (when, pat, "accepted" if v == "ok" else "refused"))
+        ks.append("conf:style-%d" % (int(f[1]) % 8))
+        if f[3] != "-":
+            ks.append("conf:path-set")
+        if v == "ok":
+            started = True
+    for t in toks:
+        if t not in ("ok", "E"):
+            ks.append("q:" + t)
+    return sorted(set(ks))
+
+
+ENGINES.append({"name": "ribconf", "gen": conf_gen, "corpus": conf_corpus, "nontrivial": conf_nontrivial, "classify": conf_classify,
+                "shards": 4, "timeout": 900})
+
 LEVEL_TEXT = ("Theorems over ALL RIB contents, attribute tables, ingress registers, limits and raw query strings: the JSON answer's data / lessSpecifics / "
               "moreSpecifics are exactly the stored unicast entries whose prefix equals / strictly covers / is strictly covered by the queried one and "
               "that pass the select/discard filter (truth table proved separately), a more-specifics query shorter than the configured limit is refused, "
